@@ -205,7 +205,7 @@ theorem nameComp_pos (c : NameCtx) (wr : M (Option Prior)) (n : WName)
   have hs := hspec _ hwA
   have hf := hfr { s with gCtx := c }
   rw [hwr] at hs hf
-  obtain ⟨_, _, _, _, _, ⟨ls, hrd, hmt⟩, hck⟩ := hs.ok p rfl
+  obtain ⟨_, _, _, _, _, ⟨ls, hrd, hmt⟩, hck, _⟩ := hs.ok p rfl
   have hcur : s.cursor ≤ s2.cursor := hf.cur
   simp only at hck hrd hmt
   have it2 : Item s2 s.cursor (s2.cursor - s.cursor) := item_of_reads hrd hck (by omega)
